@@ -8,7 +8,13 @@ import os
 import sys
 
 sys.path.insert(0, os.path.join(os.path.dirname(os.path.abspath(__file__)), "..", "lib"))
+import base64
+import subprocess
+import threading
+import time
+
 import build
+import buz
 import core
 import gen
 import zckref
@@ -82,13 +88,68 @@ def common_suffix(a, b):
     return lo
 
 
+def locality(X, t0, Y, ty, label, stats, what):
+    """Prefix and suffix clauses of the property over two chunk tables; returns a violation tuple or None."""
+    pfx = common_prefix(X, Y)
+    sfx = common_suffix(X, Y)
+    sfx = min(sfx, len(X) - pfx, len(Y) - pfx) if pfx < min(len(X), len(Y)) else sfx
+    ymap = {(c["u0"], c["u1"]): c for c in ty}
+    nchk = 0
+    for c in t0:
+        if c["u1"] < pfx:  # ends strictly before the first differing byte; following byte still shared
+            nchk += 1
+            o = ymap.get((c["u0"], c["u1"]))
+            if o is None or o["digest"] != c["digest"] or o["stored"] != c["stored"]:
+                return ("c16:prefix-chunk-changed:%s" % label, "chunk [%d,%d) of X (common prefix %d) has no identical chunk in Y; %s" % (c["u0"], c["u1"], pfx, what))
+    stats["prefix_chunks_compared"] = stats.get("prefix_chunks_compared", 0) + nchk
+    if sfx > 0:
+        # positions measured from the end
+        xs = {len(X) - c["u0"]: i for i, c in enumerate(t0) if len(X) - c["u0"] <= sfx}
+        ysx = {len(Y) - c["u0"]: i for i, c in enumerate(ty) if len(Y) - c["u0"] <= sfx}
+        commons = sorted(set(xs) & set(ysx), reverse=True)
+        if commons:
+            k = commons[0]
+            ta, tb = t0[xs[k]:], ty[ysx[k]:]
+            stats["suffix_chunks_compared"] = stats.get("suffix_chunks_compared", 0) + len(ta)
+            same = len(ta) == len(tb) and all(a["u1"] - a["u0"] == b["u1"] - b["u0"] and a["digest"] == b["digest"] and a["stored"] == b["stored"] for a, b in zip(ta, tb))
+            if not same:
+                return ("c16:suffix-diverges-after-resync:%s" % label, "both outputs start a chunk %d bytes before the end, later chunks differ; %s" % (k, what))
+    return None
+
+
+def dense_input(case, cdir, stats):
+    """Content with crafted rolling-hash hits (lib/buz.py), aimed with the effective bounds of this configuration."""
+    d = case["dense"]
+    Zp, wp, cs = write(case, cdir, b"x", [1 << 30], "w_probe")
+    ws = (wp.first(op="wstate") or {}) if wp else {}
+    amin, amax = ws.get("auto_min") or 8192, ws.get("auto_max") or 131072
+    model = buz.Model(d["table"])
+    X, notes = buz.dense_content(model, core.rng(case["i"], "C16", "dense"), d["layout"], amin, amax, d["size"])
+    if X is None:
+        return None, None
+    for k in ("crafted", "shadow_clean", "shadow_disturbed"):
+        stats["dense_" + k + "_hits"] = notes[k]
+    stats["dense_contents"] = 1
+    return X, notes
+
+
 def worker(case):
+    if case.get("kind") == "cli":
+        return cli_worker(case)
     cdir = case["dir"]
     keep = False
     r = core.rng(case["i"], "C16", "edit")
-    X = gen.content(*case["content"])
-    cid = core.h8([case["content"], case["cfg"], case["segs"], case["edit"], case.get("dict")])
     stats = {"contents": 1}
+    marks = []
+    if case.get("dense"):
+        os.makedirs(cdir, exist_ok=True)
+        X, notes = dense_input(case, cdir, stats)
+        if X is None:
+            return core.verdict("dense%d" % case["i"], "inconclusive", detail="could not build dense content", case=case)
+        marks = notes["marks"]
+    else:
+        X = gen.content(*case["content"])
+    cid = core.h8([case["content"], case["cfg"], case["segs"], case["edit"], case.get("dict"), (case.get("dense") or {}).get("layout")])
     viol = None
     try:
         Z0, w0, cs = write(case, cdir, X, [1 << 30], "w_one")
@@ -114,6 +175,20 @@ def worker(case):
                         last = e
                 s.append(1 << 30)
                 segs.append(s)
+        nb = len(segs)
+        if marks:
+            # calls whose last byte / whose first byte is a crafted hit byte
+            stats["dense_boundaries_on_crafted_hits"] = len(set(c["u1"] for c in t0[:-1]) & set(marks))
+            for d in (1, 0):
+                s = []
+                last = 0
+                for m_ in marks:
+                    e = m_ + d
+                    if e > last:
+                        s.append(e - last)
+                        last = e
+                s.append(1 << 30)
+                segs.append(s)
         for si, seg in enumerate(segs):
             Z, w, cs = write(case, cdir, X, seg, "w_seg%d" % si)
             stats["writes"] = stats.get("writes", 0) + 1
@@ -126,7 +201,7 @@ def worker(case):
             if Z != Z0:
                 _, t = chunk_table(Z)
                 kind = "boundaries" if [c["u1"] for c in t] != [c["u1"] for c in t0] else "bytes"
-                sk = "repeat" if si == 0 else ("bytes1" if seg == [1] else ("at-boundary" if si >= 1 + len(case["segs"]) else "random"))
+                sk = "repeat" if si == 0 else ("bytes1" if seg == [1] else ("at-crafted-hit" if si >= nb else ("at-boundary" if si >= 1 + len(case["segs"]) else "random")))
                 viol = ("c16:nondeterministic:%s:%s" % (kind, sk), "file differs between one-call write and segmentation %s (%d vs %d chunks)" % (seg[:8], len(t), len(t0)))
                 break
         # (c) size bounds of automatic chunks
@@ -141,37 +216,21 @@ def worker(case):
                     break
         # (b) locality
         if not viol and case["edit"]:
-            Y = edit(r, X, case["edit"])
-            ZY, wy, cs = write(case, cdir, Y, [1 << 30], "w_edit")
-            if cs:
-                viol = (cs[0], "writer crashed on edited content")
-            elif ZY is not None:
-                _, ty = chunk_table(ZY)
-                pfx = common_prefix(X, Y)
-                sfx = common_suffix(X, Y)
-                sfx = min(sfx, len(X) - pfx, len(Y) - pfx) if pfx < min(len(X), len(Y)) else sfx
-                ymap = {(c["u0"], c["u1"]): c for c in ty}
-                nchk = 0
-                for c in t0:
-                    if c["u1"] < pfx:  # ends strictly before the first differing byte; following byte still shared
-                        nchk += 1
-                        o = ymap.get((c["u0"], c["u1"]))
-                        if o is None or o["digest"] != c["digest"] or o["stored"] != c["stored"]:
-                            viol = ("c16:prefix-chunk-changed:%s" % case["edit"][0], "chunk [%d,%d) of X (common prefix %d) has no identical chunk in Y; edit=%s" % (c["u0"], c["u1"], pfx, case["edit"]))
-                            break
-                stats["prefix_chunks_compared"] = nchk
-                if not viol and sfx > 0:
-                    # positions measured from the end
-                    xs = {len(X) - c["u0"]: i for i, c in enumerate(t0) if len(X) - c["u0"] <= sfx}
-                    ysx = {len(Y) - c["u0"]: i for i, c in enumerate(ty) if len(Y) - c["u0"] <= sfx}
-                    commons = sorted(set(xs) & set(ysx), reverse=True)
-                    if commons:
-                        k = commons[0]
-                        ta, tb = t0[xs[k]:], ty[ysx[k]:]
-                        stats["suffix_chunks_compared"] = len(ta)
-                        same = len(ta) == len(tb) and all(a["u1"] - a["u0"] == b["u1"] - b["u0"] and a["digest"] == b["digest"] and a["stored"] == b["stored"] for a, b in zip(ta, tb))
-                        if not same:
-                            viol = ("c16:suffix-diverges-after-resync:%s" % case["edit"][0], "both outputs start a chunk %d bytes before the end, later chunks differ; edit=%s" % (k, case["edit"]))
+            especs = [case["edit"]]
+            if case.get("dense") and t0:
+                # additionally edit right at / around a chunk seam and a crafted hit of this content
+                seam = t0[len(t0) // 2]["u0"]
+                especs.append([r.choice(["insert", "delete", "replace"]), seam + r.choice([-49, -48, -47, -2, -1, 0, 1, 2, 47, 48]), r.choice([1, 2, 48])])
+            for es in especs:
+                Y = edit(r, X, es)
+                ZY, wy, cs = write(case, cdir, Y, [1 << 30], "w_edit")
+                if cs:
+                    viol = (cs[0], "writer crashed on edited content")
+                elif ZY is not None:
+                    _, ty = chunk_table(ZY)
+                    viol = locality(X, t0, Y, ty, es[0], stats, "edit=%s" % es)
+                if viol:
+                    break
         if viol:
             keep = True
             return core.verdict(cid, "violated", [viol[0]], stats, detail=viol[1] + " cfg=%s content=%s" % (case["cfg"], case["content"]), cdir=cdir, case=case)
@@ -182,18 +241,180 @@ def worker(case):
         core.cleanup_case(cdir, keep)
 
 
+# ---------------------------------------------------------------- zck tool tier
+def feed_fifo(path, data, pieces):
+    """Deliver `data` through a FIFO in pieces; the next piece is written only once the reader has drained the
+    previous one, so the tool's read() calls return exactly these sizes (each <= 32768)."""
+    import fcntl
+    import struct
+    import termios
+    try:
+        fd = os.open(path, os.O_WRONLY)
+    except OSError:
+        return
+    try:
+        pos = 0
+        k = 0
+        while pos < len(data):
+            n = pieces[k % len(pieces)]
+            k += 1
+            os.write(fd, data[pos:pos + n])
+            pos += n
+            t0 = time.time()
+            while time.time() - t0 < 20:
+                q = struct.unpack("i", fcntl.ioctl(fd, termios.FIONREAD, b"\0\0\0\0"))[0]
+                if q == 0:
+                    break
+                time.sleep(0.0002)
+            time.sleep(0.0005)   # let the reader finish the read() that emptied the pipe before more arrives
+    except OSError:
+        pass
+    finally:
+        os.close(fd)
+
+
+def run_zck(case, cdir, X, name, pieces=None):
+    """zck (ASan build) on content X; through a regular file, or through a FIFO delivering `pieces`."""
+    out = os.path.join(cdir, name + ".zck")
+    inp = os.path.join(cdir, name + ".in")
+    if os.path.exists(out):
+        os.unlink(out)
+    th = None
+    if pieces:
+        if os.path.exists(inp):
+            os.unlink(inp)
+        os.mkfifo(inp)
+        th = threading.Thread(target=feed_fifo, args=(inp, X, pieces), daemon=True)
+        th.start()
+    else:
+        open(inp, "wb").write(X)
+    argv = [case["zck"]] + case["args"] + ["-o", out, inp]
+    r = core.run_proc(argv, cdir)
+    if th:
+        th.join(timeout=30)
+    cs = core.crash_signatures(r, where="tool:zck")
+    if cs:
+        return None, cs
+    if r.rc != 0 or not os.path.exists(out):
+        return None, None
+    return open(out, "rb").read(), None
+
+
+def cli_content(r, spec):
+    """Text in which the split string starts at every alignment relative to the tool's 32 KiB read blocks
+    (incl. straddling them), appears back to back, and leaves partial matches around block ends."""
+    S = spec["split"].encode()
+    size = spec["size"]
+    base = bytearray(gen.content("text", size, spec["i"]).replace(S, b"#" * len(S)))
+    j = 0
+    m = 1
+    while 32768 * m + len(S) + 4 < size:
+        pos = 32768 * m - (j % (len(S) + 3)) + 1
+        base[pos:pos + len(S)] = S
+        if j % 4 == 1:
+            base[pos + len(S):pos + 2 * len(S)] = S                       # back to back
+        if j % 4 == 2 and len(S) > 1:
+            q = 32768 * m + 16384
+            base[q - len(S) + 1:q] = S[:-1]                                # partial match, then a mismatch
+        j += 1
+        m += 1 if spec.get("every_block") else r.choice([1, 1, 2])
+    for _ in range(spec.get("extra", 8)):
+        pos = r.randrange(0, max(1, size - len(S)))
+        base[pos:pos + len(S)] = S
+    return bytes(base[:size])
+
+
+def cli_worker(case):
+    cdir = case["dir"]
+    keep = False
+    os.makedirs(cdir, exist_ok=True)
+    r = core.rng(case["i"], "C16", "cli")
+    X = cli_content(r, case["spec"])
+    cid = core.h8(["cli", case["spec"], case["args"], case["pieces"], case["shifts"]])
+    stats = {"cli_contents": 1}
+    viol = None
+    try:
+        Z0, cs = run_zck(case, cdir, X, "x")
+        stats["cli_runs"] = 1
+        if cs:
+            keep = True
+            return core.verdict(cid, "violated", cs[:1], stats, detail="zck crashed: %s" % cs, cdir=cdir, case=case)
+        if Z0 is None:
+            return core.verdict(cid, "inconclusive", detail="zck failed on a plain input", case=case)
+        _, t0 = chunk_table(Z0)
+        stats["cli_chunks"] = len(t0)
+        # same content, same options, different read() sizes
+        for pi, pieces in enumerate(case["pieces"]):
+            Z, cs = run_zck(case, cdir, X, "p%d" % pi, pieces=pieces)
+            stats["cli_runs"] += 1
+            stats["cli_fifo_runs"] = stats.get("cli_fifo_runs", 0) + 1
+            if cs:
+                viol = (cs[0], "zck crashed reading pieces %s: %s" % (pieces[:6], cs))
+                break
+            if Z is None:
+                viol = ("c16:cli:read-sizes-change-outcome", "zck failed when its input arrived in pieces %s" % pieces[:6])
+                break
+            if Z != Z0:
+                _, t = chunk_table(Z)
+                kind = "boundaries" if [c["u1"] for c in t] != [c["u1"] for c in t0] else "bytes"
+                viol = ("c16:cli:nondeterministic:%s:read-sizes" % kind, "zck output differs between a regular file and the same bytes arriving in read() pieces %s (%d vs %d chunks)"
+                        % (pieces[:6], len(t0), len(t)))
+                break
+        # locality: bytes inserted near the start move every later byte to another place in the tool's read blocks
+        if not viol:
+            for k in case["shifts"]:
+                Y = X[:7] + bytes((65 + (i % 23)) for i in range(k)) + X[7:]
+                ZY, cs = run_zck(case, cdir, Y, "s%d" % k)
+                stats["cli_runs"] += 1
+                if cs:
+                    viol = (cs[0], "zck crashed on shifted content: %s" % cs)
+                    break
+                if ZY is None:
+                    viol = ("c16:cli:shift-changes-outcome", "zck failed on the content shifted by %d bytes" % k)
+                    break
+                _, ty = chunk_table(ZY)
+                viol = locality(X, t0, Y, ty, "cli-shift", stats, "%d bytes inserted at offset 7, args=%s" % (k, case["args"]))
+                if viol:
+                    viol = (viol[0].replace("c16:", "c16:cli:"), viol[1])
+                    break
+        if viol:
+            keep = True
+            return core.verdict(cid, "violated", [viol[0]], stats, detail=viol[1] + " spec=%s args=%s" % (case["spec"], case["args"]), cdir=cdir, case=case)
+        return core.verdict(cid, "held", stats=stats, nontrivial=len(t0) >= 4,
+                            sample={"tool": "zck", "args": case["args"], "spec": case["spec"], "chunks": len(t0), "fifo_piece_lists": len(case["pieces"]), "shifts": case["shifts"]})
+    finally:
+        core.cleanup_case(cdir, keep)
+
+
 class C16(core.Check):
     prop = "C16"
     flavours = ["asan"]
-    rule = ("contents (text, license, random, periodic 47/48/49, mixed; 200-900 KB so that >= 4 chunks form) x automatic chunking with default and custom "
+    rule = ("three families.  (1) contents (text, license, random, periodic 47/48/49, mixed; 200-900 KB so that >= 4 chunks form) x automatic chunking with default and custom "
             "min/max x none/zstd x dictionary; each written in one call, repeated, in 1-byte calls (smaller inputs), random call sizes, and calls ending "
             "at / one before / one after every chunk boundary of the first run; plus one edit (insert/delete/replace of 1,47,48,49,4096 bytes at start / "
-            "middle / end / chunk seams +-1) for the locality clauses. non-trivial = >= 4 data chunks")
+            "middle / end / chunk seams +-1) for the locality clauses.  (2) hit-dense contents built with the tree's own buzhash table (lib/buz.py): refused hits 1..60 bytes "
+            "below the effective minimum, second hits inside the 48-byte shadow of a refused one, hits at max-2..max+2, a hit every 48..400 bytes; same oracles, plus "
+            "write calls that end on / start with every crafted hit byte and edits around chunk seams.  (3) the zck tool with -s / -m -s / automatic chunking: split strings "
+            "at every alignment to its 32 KiB read blocks (straddling, back to back, partial matches), same bytes through a FIFO in controlled read() sizes, and the "
+            "content shifted by k bytes (locality clauses over the chunk tables).  non-trivial = >= 4 data chunks")
     assumptions = ["chunk tables read through lib/zckref.py"]
     worker = staticmethod(worker)
 
     def prepare(self, fl):
-        return {"zh": build.zh(fl["asan"])}
+        ctx = {"zh": build.zh(fl["asan"]), "zck": fl["asan"].tool("zck"), "table": buz.load_table(build.REPO)}
+        self.count("buzhash_table_read_from_tree", 1 if ctx["table"] else 0)
+        if ctx["table"]:
+            # calibration (information only): does the aiming model predict the real boundaries of a hit-dense content?
+            m = buz.Model(ctx["table"])
+            X, notes = buz.dense_content(m, core.rng(self.seed, "C16", "calib"), "mixed", 8192, 131072, 400000)
+            cd = os.path.join(self.work, "calib")
+            Z, w, cs = write({"cfg": {"comp": 0, "manual": False}, "zh": ctx["zh"]}, cd, X, [1 << 30], "calib")
+            ok = False
+            if Z is not None:
+                _, t = chunk_table(Z)
+                ok = [c["u1"] for c in t[:-1]] == m.chunks(X, 8192, 131072)
+            self.count("aiming_model_matches_library_on_calibration_content", 1 if ok else 0)
+        return ctx
 
     def cases(self, ctx):
         r = core.rng(self.seed, "C16", "gen")
@@ -227,4 +448,34 @@ class C16(core.Check):
             ew = r.choice(["start", "middle", "end", r.randrange(0, size), 8192 + r.choice([-1, 0, 1]), 32768 + r.choice([-1, 0, 1])])
             out.append({"i": i, "content": [kind, size, i], "cfg": cfg, "segs": segs, "boundary_segs": r.random() < (0.5 if self.quick else 0.8),
                         "edit": [ek, ew, en], "dict": r.choice([None, None, 2000]) if cfg["comp"] == 2 else None, "zh": ctx["zh"]})
+        # hit-dense contents: crafted rolling-hash hits around the minimum / maximum size and in each other's shadow
+        if ctx.get("table"):
+            nd = 48 if self.quick else 1500
+            for j in range(nd):
+                i = 100000 + j
+                layout = ["minedge", "minedge", "tight", "maxedge", "mixed", "minedge"][j % 6]
+                cfg = {"comp": r.choice([0, 0, 2]), "level": 1, "manual": False}
+                bounds = r.choice([None, (8192, 16384), (None, 16384), (20000, 65536), (100, 8192), (12000, 40000)]) if layout != "maxedge" else r.choice([(8192, 16384), (None, 16384), (9000, 20000)])
+                if bounds:
+                    cfg["cmax"] = bounds[1]
+                    if bounds[0] is not None:
+                        cfg["cmin"] = bounds[0]
+                size = r.choice([120000, 200000, 300000]) if cfg["comp"] == 0 else r.choice([60000, 120000])
+                segs = [[r.choice([1, 2, 47, 48, 49, 4096, 8191, 8192, 8193, 32768]) for _ in range(10)], [r.randrange(1, 20000) for _ in range(16)]]
+                if cfg["comp"] == 0 and size <= 120000:
+                    segs.append([1])
+                out.append({"i": i, "content": ["dense:" + layout, size, i], "dense": {"layout": layout, "size": size, "table": ctx["table"]}, "cfg": cfg, "segs": segs,
+                            "boundary_segs": True, "edit": [r.choice(["insert", "delete", "replace"]), r.randrange(0, size), r.choice([1, 47, 48, 49])], "dict": None, "zh": ctx["zh"]})
+        # the zck tool: split strings against its 32 KiB read blocks, read() sizes, shifted contents
+        nc = 24 if self.quick else 600
+        for j in range(nc):
+            i = 200000 + j
+            split = r.choice(["<text:", "@@", "\n\n", "SPLIT-HERE-0123456789", "ab", "x"])
+            args = r.choice([["-m", "-s", split], ["-s", split], ["-m", "-s", split, "--compression-format", "none"], ["-s", split, "--compression-format", "none"], []])
+            spec = {"split": split, "size": r.choice([140000, 200000, 330000]), "i": i, "every_block": r.random() < 0.5, "extra": r.choice([0, 8, 40])}
+            pieces = [[32768], [r.choice([1000, 4096, 32767, 32768, 100, 20000]) for _ in range(7)], [32768, 1, 32767, 2, 32766, len(split)]]
+            if spec["size"] <= 140000:
+                pieces.append([97])
+            shifts = sorted(set([1, len(split), r.randrange(1, 40), r.choice([32767, 32768, 32769, 16384])]))
+            out.append({"kind": "cli", "i": i, "spec": spec, "args": args, "pieces": pieces, "shifts": shifts, "zck": ctx["zck"]})
         return out
